@@ -124,6 +124,7 @@ func resetProgramCaches() {
 	globalInit = map[*ssa.Global]ssa.Value{}
 	globalFieldInit = map[*ssa.Global]map[*types.Var]ssa.Value{}
 	transitiveWritersMemo = nil
+	newFuncCallSites = map[*ssa.Function][]ssa.CallInstruction{}
 }
 
 // Load loads the working tree; when it contains unexported functions that the
